@@ -968,7 +968,9 @@ class SArr:
             shape = tuple(shape[0])
         return reshape(self, shape)
 
-    def ravel(self):
+    def ravel(self, order='C'):
+        if order != 'C':
+            raise Unsupported('ravel(order=%r): only C order is modelled (memory layout is not part of the value model)' % (order,))
         from .symnp import reshape
         return reshape(self, (self.size,))
 
